@@ -482,7 +482,7 @@ func TxDifference(a, b Transactions) (keep Transactions) {
 
 // SignTx signs the transaction using the given signer and private key
 func SignTx(signer Signer, tx *Transaction, prv *ecdsa.PrivateKey) (*Transaction, error) {
-	h := sigHash(tx)
+	h := signer.Hash(tx)
 	sig, err := crypto.Sign(h[:], prv)
 	if err != nil {
 		return nil, err
